@@ -566,8 +566,17 @@ Lemma no_self_use_M g M : no_self_use g = true -> In M g ->
   forall u, In u (m_uses M) -> u_target u <> m_name M.
 Proof.
   unfold no_self_use. rewrite forallb_forall. intros H HM u Hu.
-  specialize (H M HM). rewrite forallb_forall in H. specialize (H u Hu).
+  specialize (H M HM). rewrite forallb_forall in H. specialize (H u (proj2 (in_app_iff _ _ _) (or_introl Hu))).
   apply negb_true_iff in H. now apply str_eqb_neq.
+Qed.
+Lemma no_self_use_nested g M S : no_self_use g = true -> In M g -> In S (m_nested M) ->
+  forall u, In u (s_uses S) -> u_target u <> m_name M.
+Proof.
+  unfold no_self_use. rewrite forallb_forall. intros H HM HS u Hu.
+  specialize (H M HM). rewrite forallb_forall in H.
+  assert (Hin : In u (m_uses M ++ flat_map s_uses (m_nested M))).
+  { apply in_app_iff. right. apply in_flat_map. eauto. }
+  specialize (H u Hin). apply negb_true_iff in H. now apply str_eqb_neq.
 Qed.
 Lemma target_in_deps g M u T :
   (forall u, In u (m_uses M) -> u_target u <> m_name M) ->
@@ -576,7 +585,19 @@ Lemma target_in_deps g M u T :
 Proof.
   intros Hs Hu Ef. apply find_module_some in Ef as [HT En]. split; auto.
   unfold deps, resolved_targets. rewrite En. apply filter_In. split.
-  - apply filter_In. split; [now apply in_map|]. apply str_in_In. rewrite <- En. now apply in_map.
+  - apply filter_In. split; [apply in_app_iff; left; now apply in_map|]. apply str_in_In. rewrite <- En. now apply in_map.
+  - apply negb_true_iff. apply str_eqb_neq. auto.
+Qed.
+Lemma nested_target_in_deps g M S u T :
+  In S (m_nested M) -> counted S = true -> In u (s_uses S) -> u_target u <> m_name M ->
+  find_module g (u_target u) = Some T -> In T g /\ In (m_name T) (deps g M).
+Proof.
+  intros HS HC Hu Hne Ef. apply find_module_some in Ef as [HT En]. split; auto.
+  unfold deps, resolved_targets. rewrite En. apply filter_In. split.
+  - apply filter_In. split.
+    + apply in_app_iff. right. unfold nested_targets. apply in_flat_map. exists S. split; auto.
+      rewrite HC. now apply in_map.
+    + apply str_in_In. rewrite <- En. now apply in_map.
   - apply negb_true_iff. apply str_eqb_neq. auto.
 Qed.
 
@@ -677,10 +698,14 @@ Qed.
 Lemma str_in_app n l1 l2 : str_in n (l1 ++ l2) = str_in n l1 || str_in n l2.
 Proof. induction l1; simpl; auto. now rewrite IHl1, orb_assoc. Qed.
 
-(* processing the modules in a topological order leaves every module with the settled tables *)
-Lemma correlate_all_mtab c g o :
+(* processing a prefix of a topological order leaves the processed modules with the settled
+   tables and the others untouched *)
+Lemma correlate_prefix c g o :
   topo_b g o = true -> no_self_use g = true ->
-  forall M, In M g -> st_tabs (correlate_all c g o) M = mtab (length g) c g M.
+  forall l1 l2, o = l1 ++ l2 ->
+  forall M, In M g ->
+  assoc_get (m_name M) (correlate_all c g l1)
+  = Some (if str_in (m_name M) l1 then mtab (length g) c g M else (own_pub c M, own_all c M)).
 Proof.
   intros Ht Hs. pose proof (topo_length g o Ht) as Hlen.
   pose proof Ht as Ht'. apply topo_b_facts in Ht' as (ND & NDo & Sset & TP).
@@ -688,12 +713,14 @@ Proof.
          forall M, In M g ->
          assoc_get (m_name M) st
          = Some (if str_in (m_name M) done then mtab (length g) c g M else (own_pub c M, own_all c M))).
-  assert (Hfold : forall todo done st, o = done ++ todo -> Inv done st ->
-                  Inv o (fold_left (correlate_module c g) todo st)).
-  { induction todo as [|n todo IH]; intros done st Eo HI.
-    - simpl. rewrite app_nil_r in Eo. now subst.
-    - simpl. apply (IH (done ++ [n])); [now rewrite <- app_assoc|].
-      destruct (TP done n todo Eo) as (Mn & Ef & Hdeps).
+  assert (Hfold : forall todo done st rest, o = done ++ todo ++ rest -> Inv done st ->
+                  Inv (done ++ todo) (fold_left (correlate_module c g) todo st)).
+  { induction todo as [|n todo IH]; intros done st rest Eo HI.
+    - simpl. now rewrite app_nil_r.
+    - simpl. replace (done ++ n :: todo) with ((done ++ [n]) ++ todo) by (now rewrite <- app_assoc).
+      apply (IH (done ++ [n]) _ rest); [now rewrite <- app_assoc|].
+      simpl in Eo.
+      destruct (TP done n (todo ++ rest) Eo) as (Mn & Ef & Hdeps).
       destruct (find_module_some _ _ _ Ef) as [HMn En].
       assert (Hnd : str_in n done = false).
       { apply str_in_false. intros Hin. rewrite Eo in NDo. apply NoDup_remove_2 in NDo.
@@ -705,8 +732,8 @@ Proof.
       assert (EV : mstep c g Mn (st_tabs st) (own_pub c Mn) = mtab (length g) c g Mn).
       { rewrite (mstep_ext c g Mn (st_tabs st) (mtab (length g) c g)).
         - change (mstep c g Mn (mtab (length g) c g) (own_pub c Mn)) with (mtab (S (length g)) c g Mn).
-          rewrite (mtab_stable c g o Ht Hs done n todo Mn Eo Ef (S (length g))).
-          + symmetry. apply (mtab_stable c g o Ht Hs done n todo Mn Eo Ef).
+          rewrite (mtab_stable c g o Ht Hs done n (todo ++ rest) Mn Eo Ef (S (length g))).
+          + symmetry. apply (mtab_stable c g o Ht Hs done n (todo ++ rest) Mn Eo Ef).
             rewrite <- Hlen, Eo, app_length. simpl. lia.
           + rewrite <- Hlen, Eo, app_length. simpl. lia.
         - now apply no_self_use_M with (g := g).
@@ -719,10 +746,19 @@ Proof.
       + apply str_eqb_neq in E. rewrite get_set_other by auto. rewrite (HI M HM), str_in_app. simpl.
         assert (E' : str_eqb (m_name M) n = false) by (apply str_eqb_neq; congruence).
         rewrite E', !orb_false_r. reflexivity. }
-  intros M HM. unfold correlate_all.
+  intros l1 l2 Eo M HM. unfold correlate_all.
   assert (HI0 : Inv [] (init_state c g)).
   { intros M' HM'. simpl. now apply init_state_get. }
-  specialize (Hfold o [] (init_state c g) eq_refl HI0 M HM). unfold st_tabs. rewrite Hfold.
+  apply (Hfold l1 [] (init_state c g) l2 Eo HI0 M HM).
+Qed.
+
+Lemma correlate_all_mtab c g o :
+  topo_b g o = true -> no_self_use g = true ->
+  forall M, In M g -> st_tabs (correlate_all c g o) M = mtab (length g) c g M.
+Proof.
+  intros Ht Hs M HM. unfold st_tabs.
+  rewrite (correlate_prefix c g o Ht Hs o [] (eq_sym (app_nil_r o)) M HM).
+  pose proof Ht as Ht'. apply topo_b_facts in Ht' as (_ & _ & Sset & _).
   assert (Hin : str_in (m_name M) o = true) by (apply str_in_In, Sset; now apply in_map).
   now rewrite Hin.
 Qed.
@@ -745,10 +781,12 @@ Lemma wf_graph_facts g :
     functional (scope_all g M) /\
     (forall c ne, In ne (imports g M (accessible_n (length g) c g)) -> declared M (fst ne) = false).
 Proof.
-  unfold wf_graph. rewrite andb_true_iff, nodup_b_NoDup, forallb_forall. intros [ND H]. split; auto.
+  unfold wf_graph. rewrite !andb_true_iff. intros [[[ND H] HN] HS].
+  apply nodup_b_NoDup in ND. rewrite forallb_forall in H, HS. split; auto.
   split.
-  - unfold no_self_use. apply forallb_forall. intros M HM. specialize (H M HM). unfold wf_module in H.
-    rewrite !andb_true_iff in H. tauto.
+  - unfold no_self_use. apply forallb_forall. intros M HM. rewrite forallb_app. apply andb_true_iff. split.
+    + specialize (H M HM). unfold wf_module in H. rewrite !andb_true_iff in H. tauto.
+    + now apply HS.
   - intros M HM. specialize (H M HM). unfold wf_module in H. rewrite !andb_true_iff in H.
     destruct H as (((((_ & H2) & H3) & _) & H5) & H6). repeat split; auto.
     + now apply nodup_b_NoDup.
@@ -756,13 +794,37 @@ Proof.
     + intros c ne Hne. rewrite forallb_forall in H6. apply negb_true_iff. apply H6.
       apply in_flat_map. exists c. split; auto. destruct c; simpl; auto.
 Qed.
-Lemma no_region_facts g : no_region g = true -> forall M, In M g -> region_free_m M = true.
+Lemma wf_graph_nested g M S :
+  wf_graph g = true -> In M g -> In S (m_nested M) ->
+  functional (flat_map (fun c => nested_imports c g M S) all_cls) /\
+  (forall c ne, In ne (nested_imports c g M S) -> declared (as_module M S) (fst ne) = false).
+Proof.
+  unfold wf_graph. rewrite !andb_true_iff. intros [[_ HN] _] HM HS.
+  rewrite forallb_forall in HN. specialize (HN M HM). rewrite forallb_forall in HN. specialize (HN S HS).
+  unfold wf_nested in HN. apply andb_true_iff in HN as [H1 H2]. split; [now apply functional_b_iff|].
+  intros c ne Hne. rewrite forallb_forall in H2. apply negb_true_iff. unfold declared. simpl. apply H2.
+  apply in_flat_map. exists c. split; auto. destruct c; simpl; auto.
+Qed.
+Lemma with_nested_false r M :
+  with_nested r M = false -> r M = false /\ forall S, In S (m_nested M) -> r (as_module M S) = false.
+Proof.
+  unfold with_nested. intros H. apply orb_false_iff in H as [H1 H2]. split; auto.
+  intros S HS. apply (existsb_false _ _ H2 S HS).
+Qed.
+Lemma no_region_facts_all g : no_region g = true -> forall M, In M g ->
+  region_free_m M = true /\ forall S, In S (m_nested M) -> region_free_m (as_module M S) = true.
 Proof.
   unfold no_region, region_rename, region_private, region_only_empty, region_only_dup, region_free_m.
   rewrite !andb_true_iff, !negb_true_iff. intros (((H1 & H2) & H3) & H4) M HM.
-  rewrite (existsb_false _ _ H1 M HM), (existsb_false _ _ H2 M HM), (existsb_false _ _ H3 M HM),
-    (existsb_false _ _ H4 M HM). reflexivity.
+  destruct (with_nested_false _ M (existsb_false _ _ H1 M HM)) as [A1 B1].
+  destruct (with_nested_false _ M (existsb_false _ _ H3 M HM)) as [A3 B3].
+  destruct (with_nested_false _ M (existsb_false _ _ H4 M HM)) as [A4 B4].
+  split.
+  - rewrite A1, (existsb_false _ _ H2 M HM), A3, A4. reflexivity.
+  - intros S HS. rewrite (B1 S HS), (B3 S HS), (B4 S HS). reflexivity.
 Qed.
+Lemma no_region_facts g : no_region g = true -> forall M, In M g -> region_free_m M = true.
+Proof. intros H M HM. now apply (no_region_facts_all g H M HM). Qed.
 Lemma scope_in_scope_all c g M x : In x (scope c g M) -> In x (scope_all g M).
 Proof. intros H. apply in_flat_map. exists c. split; auto. destruct c; simpl; auto. Qed.
 
@@ -819,24 +881,83 @@ Proof.
   - rewrite Eimp. apply Hnd.
 Qed.
 
-Theorem partial_correct g o :
+Lemma mtab_final_spec c g o :
   wf_graph g = true -> no_region g = true -> topo_b g o = true ->
-  forall c M, In M g -> tables_ok c g (correlate_all c g o) M.
+  forall M, In M g ->
+  denotes (fst (mtab (length g) c g M)) (accessible c g M)
+  /\ denotes (snd (mtab (length g) c g M)) (scope c g M)
+  /\ NoDup (map fst (fst (mtab (length g) c g M))).
 Proof.
-  intros Hwf Hnr Ht c M HM. destruct (wf_graph_facts g Hwf) as (ND & Hs & _).
+  intros Hwf Hnr Ht M HM. destruct (wf_graph_facts g Hwf) as (ND & Hs & _).
   pose proof (topo_length g o Ht) as Hlen.
   pose proof Ht as Ht'. apply topo_b_facts in Ht' as (_ & _ & Sset & _).
   assert (Hin : In (m_name M) o) by (apply Sset; now apply in_map).
   apply in_split in Hin as (l1 & l2 & Eo).
   pose proof (find_module_nodup g M ND HM) as Ef.
   assert (Hl : S (length l1) <= length g) by (rewrite <- Hlen, Eo, app_length; simpl; lia).
-  destruct (mtab_spec c g o Hwf Hnr Ht (length l1) l1 (m_name M) l2 M eq_refl Eo Ef) as (D1 & D2 & _).
-  unfold tables_ok. rewrite (correlate_all_mtab c g o Ht Hs M HM).
+  destruct (mtab_spec c g o Hwf Hnr Ht (length l1) l1 (m_name M) l2 M eq_refl Eo Ef) as (D1 & D2 & N1).
   rewrite (mtab_stable c g o Ht Hs l1 (m_name M) l2 M Eo Ef (length g) Hl).
   unfold accessible, scope.
   rewrite (accessible_n_stable c g o Ht Hs l1 (m_name M) l2 M Eo Ef (length g) Hl).
   rewrite (imports_settled c g o Ht Hs l1 (m_name M) l2 M Eo Ef (length g)) by lia.
-  split; assumption.
+  auto.
+Qed.
+
+Theorem partial_correct g o :
+  wf_graph g = true -> no_region g = true -> topo_b g o = true ->
+  forall c M, In M g -> tables_ok c g (correlate_all c g o) M.
+Proof.
+  intros Hwf Hnr Ht c M HM. destruct (wf_graph_facts g Hwf) as (ND & Hs & _).
+  destruct (mtab_final_spec c g o Hwf Hnr Ht M HM) as (D1 & D2 & _).
+  unfold tables_ok. rewrite (correlate_all_mtab c g o Ht Hs M HM). split; assumption.
+Qed.
+
+(* nested scopes: when the processing order respects the dependencies get_deps collects, the
+   entries the USE statements of a counted nested scope add are exactly the Spec's *)
+Lemma before_split n l1 l2 : ~ In n l1 -> before n (l1 ++ n :: l2) = l1.
+Proof.
+  induction l1 as [|x l1 IH]; simpl; intros H.
+  - now rewrite str_eqb_refl.
+  - destruct (str_eqb x n) eqn:E; [apply str_eqb_eq in E; subst; exfalso; auto|].
+    f_equal. apply IH. auto.
+Qed.
+
+Theorem nested_correct c g o :
+  wf_graph g = true -> no_region g = true -> topo_b g o = true ->
+  forall M S, In M g -> In S (m_nested M) -> counted S = true ->
+  denotes (nested_imports_model c g o M S) (nested_imports c g M S).
+Proof.
+  intros Hwf Hnr Ht M S HM HS HC. destruct (wf_graph_facts g Hwf) as (ND & Hs & _).
+  destruct (wf_graph_nested g M S Hwf HM HS) as [Fn Hnd].
+  destruct (no_region_facts_all g Hnr M HM) as [_ RFn]. specialize (RFn S HS).
+  pose proof Ht as Ht'. apply topo_b_facts in Ht' as (_ & NDo & Sset & TP).
+  assert (Hin : In (m_name M) o) by (apply Sset; now apply in_map).
+  apply in_split in Hin as (l1 & l2 & Eo).
+  assert (Hn1 : ~ In (m_name M) l1).
+  { intros Hin. rewrite Eo in NDo. apply NoDup_remove_2 in NDo. apply NDo. apply in_app_iff. now left. }
+  unfold nested_imports_model. rewrite Eo, (before_split _ _ _ Hn1).
+  assert (F0 : functional (nested_imports c g M S)).
+  { eapply functional_incl; [|exact Fn]. intros x Hx. apply in_flat_map. exists c. split; auto.
+    destruct c; simpl; auto. }
+  pose proof (fold_use_step g (as_module M S) (st_tabs (correlate_all c g l1)) (accessible c g) RFn
+                (eq_refl : forallb _ (m_access (as_module M S)) = true) (NoDup_nil _) (s_uses S)) as Hf.
+  destruct (Hf (fun u Hu => Hu)) with (pub := @nil (str * ent)) (all := @nil (str * ent))
+                                      (Sp := @nil (str * ent)) (Sa := @nil (str * ent)) as (_ & D & _).
+  - intros u T Hu Ef.
+    destruct (nested_target_in_deps g M S u T HS HC Hu (no_self_use_nested g M S Hs HM HS u Hu) Ef) as [HT Hd].
+    destruct (TP l1 (m_name M) l2 Eo) as (M' & Ef' & Hdeps).
+    assert (M' = M) by (rewrite (find_module_nodup g M ND HM) in Ef'; congruence). subst M'.
+    apply Hdeps in Hd. unfold st_tabs.
+    rewrite (correlate_prefix c g o Ht Hs l1 (m_name M :: l2) Eo T HT).
+    apply str_in_In in Hd. rewrite Hd.
+    destruct (mtab_final_spec c g o Hwf Hnr Ht T HT) as (D1 & _ & N1). auto.
+  - constructor.
+  - apply denotes_nil.
+  - apply denotes_nil.
+  - exact F0.
+  - simpl. eapply functional_incl; [|exact F0]. intros x Hx. now apply filter_In in Hx as [Hx _].
+  - intros ne Hne. now apply (Hnd c).
+  - exact D.
 Qed.
 
 (* the fuel of the Spec is enough: more fuel changes nothing on an acyclic graph *)
@@ -1051,8 +1172,10 @@ Proof. intros H1 H2 [H _]. apply H in H1. apply in_b_In in H1. congruence. Qed.
 
 Definition mkD n k p : decl := {| d_name := s n; d_kind := k; d_perm := p |}.
 Definition mkU t o r : use_stmt := {| u_target := s t; u_only := o; u_renames := r |}.
-Definition mkM n p ds a us : module :=
-  {| m_name := s n; m_default := p; m_decls := ds; m_access := a; m_uses := us |}.
+Definition mkMn n p ds a us ns : module :=
+  {| m_name := s n; m_default := p; m_decls := ds; m_access := a; m_uses := us; m_nested := ns |}.
+Definition mkM n p ds a us : module := mkMn n p ds a us [].
+Definition mkS path kinds ds us : nscope := {| s_path := map s path; s_kinds := kinds; s_decls := ds; s_uses := us |}.
 
 Definition w_ma : module :=
   mkM "ma" Public [mkD "foo" KVar Public; mkD "hid" KVar Private; mkD "ta1" KType Public;
@@ -1142,3 +1265,45 @@ Example ex_tables :
   assoc_get (s "vd1") (fst (st CVar)) = None /\
   assoc_get (s "vd1") (snd (st CVar)) = Some (s "md", s "vd1").
 Proof. vm_compute. repeat split; reflexivity. Qed.
+
+(* ---- nested scopes: witness of region 5 and an example *)
+(* module mm: abstract interface; subroutine cb(x); use zf; type(ta) :: x   module zf: use za *)
+Definition w_za : module := mkM "za" Public [mkD "ta" KType Public; mkD "pa" KProc Public] [] [].
+Definition w_uncounted : graph :=
+  [mkMn "mm" Public [mkD "cb" KAbs Public] [] [] [mkS ["cb"] [NAbsBody] [] [mkU "zf" None []]];
+   mkM "zf" Public [] [] [mkU "za" None []];
+   w_za].
+Definition nested_refuted_in (g : graph) : Prop :=
+  exists o c M S, wf_graph g = true /\ topo_b g o = true /\ toposort g = Some o /\
+                  In M g /\ In S (m_nested M) /\ no_region g = true /\ region_uncounted g = true /\
+                  ~ denotes (nested_imports_model c g o M S) (nested_imports c g M S).
+Lemma refuted_uncounted : nested_refuted_in w_uncounted.
+Proof.
+  exists [s "mm"; s "za"; s "zf"], CType, (nth 0 w_uncounted w_za),
+         (mkS ["cb"] [NAbsBody] [] [mkU "zf" None []]).
+  repeat split; try (vm_compute; reflexivity); try (simpl; auto; fail).
+  intros D. specialize (D (s "ta") (s "za", s "ta")). destruct D as [_ D].
+  assert (H : in_b (s "ta") (s "za", s "ta")
+                (nested_imports CType w_uncounted (nth 0 w_uncounted w_za)
+                   (mkS ["cb"] [NAbsBody] [] [mkU "zf" None []])) = true) by (vm_compute; reflexivity).
+  apply in_b_In in H. apply D in H. vm_compute in H. discriminate.
+Qed.
+
+Definition ex_gn : graph :=
+  ex_g ++ [mkMn "me" Public [mkD "pe" KProc Public] [] []
+             [mkS ["pe"] [NRoutine] [mkD "vl" KVar Public] [mkU "md" (Some [(s "tl", s "tl")]) []];
+              mkS ["pe"; "qe"] [NRoutine; NRoutine] [] [mkU "mc" None []];
+              mkS ["pe"; "ext"] [NRoutine; NIfBody] [] [mkU "mb" (Some [(s "vq", s "vb1")]) []]]].
+Definition ex_on := ex_o1 ++ [s "me"].
+Example ex_nested_hypotheses :
+  wf_graph ex_gn = true /\ no_region ex_gn = true /\ topo_b ex_gn ex_on = true /\
+  toposort ex_gn = Some ex_on /\
+  forallb (fun M => forallb counted (m_nested M)) ex_gn = true /\
+  (* without the nested USE statements "me" would not depend on anything *)
+  deps ex_gn (nth 4 ex_gn w_ma) = [s "md"; s "mc"; s "mb"] /\
+  assoc_get (s "tl") (nested_imports_model CType ex_gn ex_on (nth 4 ex_gn w_ma)
+                        (nth 0 (m_nested (nth 4 ex_gn w_ma)) (mkS [] [] [] []))) = Some (s "ma", s "ta1") /\
+  in_b (s "pa1") (s "ma", s "pa1")
+       (nested_lower_spec CProc ex_gn (nth 4 ex_gn w_ma)
+          (nth 1 (m_nested (nth 4 ex_gn w_ma)) (mkS [] [] [] []))) = true.
+Proof. repeat split; vm_compute; reflexivity. Qed.
